@@ -116,6 +116,19 @@ func replay(repo, file, thriftgo, plug string) int {
 			h.out.Fail(vl.OracleFail{Key: keyOf("pca", s), What: "plugin parameters do not keep command-line order/content",
 				Input: map[string]interface{}{"kind": "pca", "s": s, "name": name, "kvs": kvs}, Expected: kvs, Observed: h.pcaImpl(s)})
 		}
+	case "bytes":
+		var sidx int
+		json.Unmarshal(doc.Input["sidx"], &sidx)
+		c := h.reqCodec()
+		if sidx == sc.Response {
+			c = h.resCodec()
+		}
+		bs := []byte(vl.UnHex(str("hex")))
+		if bad, why := h.unmarshalPanics(c, bs); bad {
+			h.out.Fail(vl.OracleFail{Key: keyOf("unmarshal-panic", fmt.Sprintf("%d %s", c.sidx, vl.Hex(string(bs)))),
+				What:  "Unmarshal" + sc.Structs[c.sidx].Name + " panics on malformed bytes instead of returning an error",
+				Input: map[string]interface{}{"kind": "bytes", "sidx": c.sidx, "hex": vl.Hex(string(bs))}, Expected: "an error", Observed: why})
+		}
 	case "trailer":
 		d := []byte(vl.UnHex(str("data")))
 		var feature uint8
